@@ -65,6 +65,14 @@ def subharnesses(tier):
                       'limit_second_only': True}))
     subs.append(('no-partition', {'n': 1, 'nlim': 0, 'replaced': None,
                                   'spelled': False, 'missing': True}))
+    # the public entry points: API().reservation.create / update (schema
+    # validation, defaults, the admin calls that follow an accepted request)
+    for verb in ('create', 'update'):
+        for n in (0, 1, 2):
+            for nlim in (0, 1):
+                subs.append(('api-%s-n%d-lim%d' % (verb, n, nlim),
+                             {'kind': 'api', 'verb': verb, 'n': n,
+                              'nlim': nlim}))
     return subs
 
 
@@ -107,7 +115,166 @@ def _triple(S, prefix, spelled, hi):
             (c, m * 2 ** 30, d * 2 ** 30))
 
 
+class _Admin:
+    def __init__(self, lst, stored):
+        self.lst, self.stored, self.calls = lst, stored, []
+
+    def list(self, attrs):
+        self.calls.append(('list', dict(attrs)))
+        return [dict(a) for a in self.lst]
+
+    def get(self, key, dirty=False):
+        return dict(self.stored)
+
+    def create(self, key, rsrc):
+        self.calls.append(('create', list(key), dict(rsrc)))
+
+    def update(self, key, rsrc):
+        self.calls.append(('update', list(key), dict(rsrc)))
+
+
+def _api(S, spec):
+    """API().reservation.create / update on fake admin objects.  Everything
+    is a schema-valid string, so magnitudes are solver choices rendered in two
+    spellings; the real jsonschema validation and unit parsers run."""
+    import inspect
+    import decorator
+    if not hasattr(decorator, 'getargspec'):
+        # environment: the pinned tree calls decorator.getargspec, which the
+        # installed decorator 5.x no longer has (stub, listed in the evidence)
+        decorator.getargspec = inspect.getfullargspec
+    import jsonschema
+    from treadmill import exc, utils
+    from treadmill.api import allocation as A
+    utils.cpu_units = _ORIG.get('cpu_units', utils.cpu_units)
+    G = 2 ** 30
+    part = {'cpu': '200%', 'memory': '4G', 'disk': '4G', 'limits': []}
+    pv = (200, 4 * G, 4 * G)
+    lim_vals = {}
+    if spec['nlim']:
+        part['limits'].append({'trait': 't1', 'cpu': '100%', 'memory': '2G',
+                               'disk': '2048M'})
+        lim_vals['t1'] = (100, 2 * G, 2 * G)
+    allocs, avals = [], []
+    for i in range(spec['n']):
+        if i == 0:
+            c = 100 * S.choice('alloc%d_cpu' % i, 2)
+            m = S.choice('alloc%d_memG' % i, 3)
+            has_t1 = S.flag('alloc%d_has_t1' % i)
+        else:
+            c, m, has_t1 = 50, 1, True      # the second one is fixed
+        al = {'_id': 'tenant/alloc%d/cell' % i, 'cpu': '%d%%' % c,
+              'memory': '%dG' % m, 'disk': '%dM' % (1024 * m),
+              'partition': 'p',
+              'traits': ['t1'] if has_t1 else []}
+        allocs.append(al)
+        avals.append((c, m * G, m * G))
+    c = (0, 100, 150, 50)[S.choice('req_cpu', 4 if spec['n'] == 0 else 3)]
+    m = (0, 1, 3, 5)[S.choice('req_memG', 4)]
+    d = (1, 5)[S.choice('req_diskG', 2)]
+    sp = S.choice('req_spelling', 2) if spec['n'] == 0 else 1
+    req = {'cpu': '%d%%' % c,
+           'memory': ('%dG' % m) if sp else ('%dM' % (1024 * m)),
+           'disk': ('%dG' % d) if not sp else ('%dM' % (1024 * d))}
+    rv = (c, m * G, d * G)
+    tr = S.choice('req_traits', 3)
+    if tr:
+        req['traits'] = [[], ['t1']][tr - 1]
+    with_partition = S.flag('req_names_partition')
+    if with_partition:
+        req['partition'] = 'p'
+    if spec['n'] == 0 and S.flag('req_has_rank'):
+        req['rank'] = 50
+    names = ['tenant/new'] + ['tenant/alloc%d' % i for i in range(spec['n'])]
+    name = names[S.choice('req_name', len(names))] if len(names) > 1 \
+        else names[0]
+    replaced = None
+    for i in range(spec['n']):
+        if name == 'tenant/alloc%d' % i:
+            replaced = i
+    stored = dict(allocs[replaced]) if replaced is not None else \
+        {'_id': name + '/cell', 'cpu': '0%', 'memory': '0G', 'disk': '0G',
+         'partition': 'p', 'traits': [], 'rank': 100}
+    adm = _Admin(allocs, stored)
+    A._admin_cell_alloc = lambda: adm
+    A._admin_partition = lambda: _Fake(part=part)
+    with __import__('crosshair.tracers').tracers.NoTracing():
+        api = A.API()
+    verb = spec['verb']
+    sent = dict(req)
+    accepted, malformed = True, False
+    from crosshair.tracers import NoTracing
+    try:
+        # every argument is concrete here (the solver only picked the
+        # alternatives): the call runs untraced - jsonschema under the tracer
+        # costs ~0.4 s per path
+        with NoTracing():
+            getattr(api.reservation, verb)(name + '/cell', req)
+    except exc.InvalidInputError:
+        accepted = False
+    except jsonschema.exceptions.ValidationError:
+        accepted = False
+        malformed = True
+    except Exception as e:      # noqa
+        import traceback
+        S.fail('C19:service_failure_instead_of_input_error',
+               {'error': repr(e), 'verb': verb, 'request': sent,
+               'trace': traceback.format_exc()[-400:]})
+    S.reach('api_called')
+    others = [av for i, av in enumerate(avals) if i != replaced]
+    other_traits = [allocs[i]['traits'] for i in range(len(allocs))
+                    if i != replaced]
+    fits = all(rv[k] <= pv[k] - sum(av[k] for av in others) for k in range(3))
+    if 't1' in sent.get('traits', []) and 't1' in lim_vals:
+        fits = fits and all(
+            rv[k] <= lim_vals['t1'][k] - sum(av[k] for av, t in
+                                             zip(others, other_traits)
+                                             if 't1' in t) for k in range(3))
+    # what the documented schema asks for (reservation.json: verbs/create
+    # needs memory, cpu, disk; verbs/update also partition)
+    well_formed = verb == 'create' or with_partition
+    if malformed:
+        S.reach('api_schema_rejected')
+        S.check('C19:well_formed_request_rejected_by_schema', not well_formed,
+                {'verb': verb, 'request': sent})
+        return
+    if accepted:
+        S.reach('api_accepted')
+        S.check('C19:accepted_reservation_exceeds_capacity_or_trait_limit',
+                fits, {'verb': verb, 'request': sent, 'others': allocs})
+        writes = [c_ for c_ in adm.calls if c_[0] in ('create', 'update')]
+        S.check('C19:accepted_request_not_stored_exactly_once',
+                len(writes) == 1 and writes[0][0] == verb and
+                writes[0][1] == ['cell', name], {'calls': writes})
+        if writes:
+            rec = writes[0][2]
+            S.check('C19:stored_reservation_differs_from_request',
+                    all(rec.get(k) == sent[k] for k in ('cpu', 'memory',
+                                                        'disk')) and
+                    rec.get('partition') == (sent.get('partition') or
+                                             ('_default' if verb == 'create'
+                                              else 'p')) and
+                    (verb != 'create' or rec.get('rank') ==
+                     sent.get('rank', 100)),
+                    {'stored': rec, 'request': sent})
+        # the capacity check looked at the partition the request names
+        lists = [c_ for c_ in adm.calls if c_[0] == 'list']
+        S.check('C19:capacity_checked_in_another_partition',
+                all(c_[1].get('partition') == (sent.get('partition') or
+                                               '_default') and
+                    c_[1].get('cell') == 'cell' for c_ in lists),
+                {'lists': lists})
+    else:
+        S.reach('api_rejected')
+        S.check('C19:fitting_reservation_rejected', not fits,
+                {'verb': verb, 'request': sent, 'others': allocs})
+        S.check('C19:rejected_request_was_stored',
+                not [c_ for c_ in adm.calls if c_[0] in ('create', 'update')])
+
+
 def harness(S, spec):
+    if spec.get('kind') == 'api':
+        return _api(S, spec)
     A, utils = _install(S)
     from treadmill import exc
     sp = spec['spelled']
@@ -204,10 +371,15 @@ META = {
         'api.allocation._check_capacity', 'api.allocation._calc_free',
         'api.allocation._calc_free_traits', 'api.allocation._check_limit',
         'api.allocation._partition_get', 'utils.size_to_bytes',
-        'utils.cpu_units (strings)'],
-    'reach_required': ['accepted', 'rejected', 'trait_limit_applies'],
+        'utils.cpu_units (strings)',
+        'api.allocation.API().reservation.create / update (closures, with '
+        'schema.schema validation against reservation.json)'],
+    'reach_required': ['accepted', 'rejected', 'trait_limit_applies',
+                       'api_called', 'api_accepted', 'api_rejected'],
 }
 
 
 def weight(name, spec):
+    if spec.get('kind') == 'api':
+        return 4 + spec.get('n', 0) * 4
     return spec.get('n', 0) * 3 + spec.get('nlim', 0)
